@@ -205,7 +205,7 @@ def analyse_unit(name, canary=False, rlimit=None, seed=None):
     obls = {}
     clause_lines = {}  # fnkey -> list of (abs_line, idx)
     for key, f in own.items():
-        if f["external"]:
+        if f["external"] or f.get("decl"):
             continue
         props = fn_props.get(key, [])
         oid = f"{name}::{key}::body"
